@@ -152,9 +152,10 @@ pub fn exp_i32f32() {
 }
 
 // ---- C17 on the whole domain (no restriction on the magnitude of the angle): iteration count only
+// unwind = bound + 2: an unwinding-assertion failure here means more iterations than C17 allows
 #[cfg(kani)]
 #[kani::proof]
-#[kani::unwind(70)]
+#[kani::unwind(194)]
 pub fn sin_ticks_i9f23_whole_domain() {
     let x = I9F23::from_bits(kani::any());
     hk::reset_ticks();
@@ -163,7 +164,7 @@ pub fn sin_ticks_i9f23_whole_domain() {
 }
 #[cfg(kani)]
 #[kani::proof]
-#[kani::unwind(70)]
+#[kani::unwind(322)]
 pub fn sin_ticks_i32f32_whole_domain() {
     let x = I32F32::from_bits(kani::any());
     hk::reset_ticks();
